@@ -38,8 +38,7 @@ VARIABLES rate, haskalman, script,          \* configuration chosen by Setup
           pc, op, excbody, rres, si,        \* user thread; si = next script position
           bid, ladded, pendstart,           \* library: id of the helper's block (0 none), block.added, START to send
           lccf,                             \* Log.add_config accepted the configuration (LogConfig.cf is set)
-          slock,                            \* Crazyflie._send_lock: "free" | "user" | "disp" (held by a thread that is
-                                            \* about to transmit; acquired at the end of its previous region if free)
+          scb, discpend,                    \* SyncLogger: its callbacks are registered; its disconnected callback is about to run
           vals,                             \* ranger: the six properties (mm, -1 = None)
           window, syncq,                    \* estimator: history window, SyncLogger queue
           pq, pinfl, t1, now,               \* parameter writes queued / in flight, time of the first call, clock
@@ -47,9 +46,9 @@ VARIABLES rate, haskalman, script,          \* configuration chosen by Setup
           inq, link, ndata,
           obs, mon, bad
 
-vars == <<rate, haskalman, script, pc, op, excbody, rres, si, bid, ladded, pendstart, lccf, slock, vals, window, syncq,
+vars == <<rate, haskalman, script, pc, op, excbody, rres, si, bid, ladded, pendstart, lccf, scb, discpend, vals, window, syncq,
           pq, pinfl, t1, now, dblk, inq, link, ndata, obs, mon, bad>>
-view == <<rate, haskalman, script, pc, op, excbody, rres, si, bid, ladded, pendstart, lccf, slock, vals, window, syncq,
+view == <<rate, haskalman, script, pc, op, excbody, rres, si, bid, ladded, pendstart, lccf, scb, discpend, vals, window, syncq,
           pq, pinfl, t1, now, dblk, inq, link, ndata, mon, bad>>
 
 NoBlk == [id |-> 0, started |-> FALSE, per |-> 0]
@@ -63,7 +62,7 @@ Emit(ev) == /\ obs' = ev
 
 Init == /\ rate = 0 /\ haskalman = TRUE /\ script = <<>>
         /\ pc = "setup" /\ op = "" /\ excbody = FALSE /\ rres = "" /\ si = 1
-        /\ bid = 0 /\ ladded = FALSE /\ pendstart = FALSE /\ lccf = FALSE /\ slock = "free"
+        /\ bid = 0 /\ ladded = FALSE /\ pendstart = FALSE /\ lccf = FALSE /\ scb = FALSE /\ discpend = FALSE
         /\ vals = [j \in 1..6 |-> -1]
         /\ window = P!Window0 /\ syncq = <<>>
         /\ pq = <<>> /\ pinfl = FALSE /\ t1 = 0 /\ now = 0
@@ -74,7 +73,7 @@ Setup(r, hk, sc) ==
     /\ pc = "setup"
     /\ rate' = r /\ haskalman' = hk /\ script' = sc /\ pc' = "idle"
     /\ obs' = [E0 EXCEPT !.e = "setup"] /\ mon' = P!M0(Mode, r, hk) /\ bad' = bad
-    /\ UNCHANGED <<slock, lccf, op, excbody, rres, si, bid, ladded, pendstart, vals, window, syncq, pq, pinfl, t1, now,
+    /\ UNCHANGED <<scb, discpend, lccf, op, excbody, rres, si, bid, ladded, pendstart, vals, window, syncq, pq, pinfl, t1, now,
                    dblk, inq, link, ndata>>
 
 \* ---- device -------------------------------------------------------------------------------
@@ -98,11 +97,6 @@ BugVars == CASE Bug = "swapLeftRight" -> [MyVars EXCEPT ![3] = MyVars[4], ![4] =
 Period == IF Mode = "ranger" THEN rate \div 10 ELSE 50
 
 \* ---- user thread ---------------------------------------------------------------------------
-\* thread `who` has just come to a point where it will transmit next: it takes _send_lock if it is free
-\* (otherwise it waits for it at the start of its transmission)
-Grab(who, wants) == slock' = IF wants /\ slock = "free" THEN who ELSE slock
-MayTx(who) == slock \in {"free", who}
-
 CanSet == haskalman /\ link = "up"
 
 Begin ==
@@ -119,11 +113,10 @@ Begin ==
                     [] o \in {"start", "enter"} -> (IF link = "up" THEN "" ELSE "AttributeError")
                     [] OTHER -> (IF lccf THEN "" ELSE "AttributeError")
        /\ lccf' = (lccf \/ (o \in {"start", "enter"} /\ link = "up"))
-       /\ Grab("user", IF o \in {"start", "enter"} THEN link = "up" ELSE o # "reset" /\ lccf)
        /\ Emit([E0 EXCEPT !.e = "begin", !.op = (IF o = "exitexc" THEN "exit" ELSE o),
                           !.res = (IF o = "exitexc" THEN "exc" ELSE "")])
     /\ si' = si + 1
-    /\ UNCHANGED <<rate, haskalman, script, bid, ladded, pendstart, vals, window, syncq, pq, pinfl, t1, now,
+    /\ UNCHANGED <<scb, discpend, rate, haskalman, script, bid, ladded, pendstart, vals, window, syncq, pq, pinfl, t1, now,
                    dblk, inq, link, ndata>>
 
 \* Param.set_value('kalman.resetEstimation', v) finds the parameter (KeyError otherwise: the table lacks it
@@ -139,7 +132,8 @@ PCall(v, t) ==
     /\ pc' = (IF v = 1 /\ Bug # "noZeroWrite" THEN "sleep" ELSE IF link = "up" THEN "send" ELSE "end")
     /\ rres' = (IF (v = 0 \/ Bug = "noZeroWrite") /\ link # "up" THEN "AttributeError" ELSE rres)
     /\ lccf' = (lccf \/ ((v = 0 \/ Bug = "noZeroWrite") /\ link = "up"))
-    /\ Grab("user", (v = 0 \/ Bug = "noZeroWrite") /\ link = "up")
+    /\ scb' = (scb \/ ((v = 0 \/ Bug = "noZeroWrite") /\ link = "up"))      \* SyncLogger.connect()
+    /\ discpend' = discpend
     /\ Emit([E0 EXCEPT !.e = "pcall", !.v = v, !.t = t])
     /\ UNCHANGED <<rate, haskalman, script, op, excbody, si, bid, ladded, pendstart, vals, window, syncq, pinfl,
                    dblk, inq, link, ndata>>
@@ -151,18 +145,17 @@ SleepWake(dt) ==
     /\ pc' = (IF CanSet THEN "call0" ELSE "end")
     /\ rres' = (IF CanSet THEN rres ELSE "KeyError")
     /\ Emit([E0 EXCEPT !.e = "wake", !.t = t1 + dt])
-    /\ UNCHANGED <<slock, lccf, rate, haskalman, script, op, excbody, si, bid, ladded, pendstart, vals, window, syncq, pq, pinfl, t1,
+    /\ UNCHANGED <<scb, discpend, lccf, rate, haskalman, script, op, excbody, si, bid, ladded, pendstart, vals, window, syncq, pq, pinfl, t1,
                    dblk, inq, link, ndata>>
 
 \* Log.add_config + LogConfig.start() -> create(): one CREATE_BLOCK_V2 message
 SendCreate ==
-    /\ pc = "send" /\ op \in {"start", "enter", "reset"} /\ link = "up" /\ MayTx("user")
-    /\ slock' = "free"
+    /\ pc = "send" /\ op \in {"start", "enter", "reset"} /\ link = "up"
     /\ bid' = bid + 1
     /\ DevCtl("create", bid + 1, 0)
     /\ pc' = (IF op = "reset" THEN "loop" ELSE "end")
     /\ Emit([E0 EXCEPT !.e = "ctl", !.cmd = "create", !.id = bid + 1, !.vars = BugVars])
-    /\ UNCHANGED <<lccf, rate, haskalman, script, op, excbody, rres, si, ladded, pendstart, vals, window, syncq, pq,
+    /\ UNCHANGED <<scb, discpend, lccf, rate, haskalman, script, op, excbody, rres, si, ladded, pendstart, vals, window, syncq, pq,
                    pinfl, t1, now, link, ndata>>
 
 \* LogConfig.delete() (ranger: Multiranger.stop; estimator: SyncLogger.disconnect after stop)
@@ -170,21 +163,20 @@ SendDelete ==
     /\ link = "up" /\ bid # 0
     /\ \/ pc = "send" /\ op \in {"stop", "exit"}
        \/ pc = "delete"
-    /\ Bug # "noDelete" /\ MayTx("user")
-    /\ slock' = "free"
+    /\ Bug # "noDelete"
     /\ DevCtl("delete", bid, 0)
     /\ pc' = "end"
+    /\ scb' = FALSE                 \* SyncLogger.disconnect() removes its callbacks after the delete
     /\ Emit([E0 EXCEPT !.e = "ctl", !.cmd = "delete", !.id = bid])
-    /\ UNCHANGED <<lccf, rate, haskalman, script, op, excbody, rres, si, bid, ladded, pendstart, vals, window, syncq, pq,
+    /\ UNCHANGED <<discpend, lccf, rate, haskalman, script, op, excbody, rres, si, bid, ladded, pendstart, vals, window, syncq, pq,
                    pinfl, t1, now, link, ndata>>
 
 SendStop ==
-    /\ pc = "stop" /\ link = "up" /\ MayTx("user")
-    /\ slock' = "user"            \* released and taken again at once for the delete message
+    /\ pc = "stop" /\ link = "up"
     /\ DevCtl("stop", bid, 0)
     /\ pc' = "delete"
     /\ Emit([E0 EXCEPT !.e = "ctl", !.cmd = "stop", !.id = bid])
-    /\ UNCHANGED <<lccf, rate, haskalman, script, op, excbody, rres, si, bid, ladded, pendstart, vals, window, syncq, pq,
+    /\ UNCHANGED <<scb, discpend, lccf, rate, haskalman, script, op, excbody, rres, si, bid, ladded, pendstart, vals, window, syncq, pq,
                    pinfl, t1, now, link, ndata>>
 
 \* the estimator loop takes the next item of the SyncLogger queue
@@ -197,10 +189,9 @@ UTake ==
        IN /\ window' = w
           /\ pc' = IF s = DISC THEN "end"
                    ELSE IF leave THEN (IF link = "up" THEN "stop" ELSE "end") ELSE "loop"
-          /\ Grab("user", s # DISC /\ leave /\ link = "up")
           /\ Emit([E0 EXCEPT !.e = "take", !.vals = s])
     /\ syncq' = Tail(syncq)
-    /\ UNCHANGED <<lccf, rate, haskalman, script, op, excbody, rres, si, bid, ladded, pendstart, vals, pq, pinfl, t1,
+    /\ UNCHANGED <<scb, discpend, lccf, rate, haskalman, script, op, excbody, rres, si, bid, ladded, pendstart, vals, pq, pinfl, t1,
                    now, dblk, inq, link, ndata>>
 
 EndRes == IF rres # "" THEN rres
@@ -215,17 +206,16 @@ End ==
     /\ pc' = "idle"
     /\ Emit([E0 EXCEPT !.e = "end", !.op = op, !.res = EndRes])
     /\ op' = ""
-    /\ UNCHANGED <<slock, lccf, rate, haskalman, script, excbody, rres, si, bid, ladded, pendstart, vals, window, syncq, pq, pinfl,
+    /\ UNCHANGED <<scb, discpend, lccf, rate, haskalman, script, excbody, rres, si, bid, ladded, pendstart, vals, window, syncq, pq, pinfl,
                    t1, now, dblk, inq, link, ndata>>
 
 \* ---- updater ------------------------------------------------------------------------------
 PTx ==
-    /\ pq # <<>> /\ ~pinfl /\ link = "up" /\ slock = "free"
-    /\ slock' = "free"
+    /\ pq # <<>> /\ ~pinfl /\ link = "up"
     /\ pq' = Tail(pq) /\ pinfl' = TRUE
     /\ inq' = Append(inq, [t |-> "prx", cmd |-> "", id |-> 0, st |-> 0, vals |-> <<Head(pq)>>])
     /\ Emit([E0 EXCEPT !.e = "pset", !.v = Head(pq)])
-    /\ UNCHANGED <<lccf, rate, haskalman, script, pc, op, excbody, rres, si, bid, ladded, pendstart, vals, window, syncq,
+    /\ UNCHANGED <<scb, discpend, lccf, rate, haskalman, script, pc, op, excbody, rres, si, bid, ladded, pendstart, vals, window, syncq,
                    t1, now, dblk, link, ndata>>
 
 \* ---- dispatcher ---------------------------------------------------------------------------
@@ -233,7 +223,7 @@ DispP ==
     /\ inq # <<>> /\ Head(inq).t = "prx" /\ ~pendstart
     /\ inq' = Tail(inq) /\ pinfl' = FALSE
     /\ Emit([E0 EXCEPT !.e = "prx", !.v = Head(inq).vals[1]])
-    /\ UNCHANGED <<slock, lccf, rate, haskalman, script, pc, op, excbody, rres, si, bid, ladded, pendstart, vals, window, syncq,
+    /\ UNCHANGED <<scb, discpend, lccf, rate, haskalman, script, pc, op, excbody, rres, si, bid, ladded, pendstart, vals, window, syncq,
                    pq, t1, now, dblk, link, ndata>>
 
 DispAck ==
@@ -241,21 +231,21 @@ DispAck ==
     /\ LET a == Head(inq) IN
        /\ inq' = Tail(inq)
        /\ pendstart' = (a.cmd = "create" /\ a.id = bid /\ a.st \in {0, 17} /\ ~ladded /\ link = "up")
-       /\ ladded' = IF a.cmd = "delete" /\ a.id = bid /\ a.st \in {0, 2} THEN FALSE ELSE ladded
-       /\ Grab("disp", a.cmd = "create" /\ a.id = bid /\ a.st \in {0, 17} /\ ~ladded /\ link = "up")
+       /\ ladded' = IF a.cmd = "delete" /\ a.id = bid /\ a.st \in {0, 2} THEN FALSE
+                    ELSE IF a.cmd = "create" /\ a.id = bid /\ a.st \in {0, 17} /\ link # "up" THEN TRUE   \* START not sent
+                    ELSE ladded
        /\ Emit([E0 EXCEPT !.e = "ack", !.cmd = a.cmd, !.id = a.id, !.st = a.st])
-    /\ UNCHANGED <<lccf, rate, haskalman, script, pc, op, excbody, rres, si, bid, vals, window, syncq, pq, pinfl, t1, now,
+    /\ UNCHANGED <<scb, discpend, lccf, rate, haskalman, script, pc, op, excbody, rres, si, bid, vals, window, syncq, pq, pinfl, t1, now,
                    dblk, link, ndata>>
 
 \* Log._new_packet_cb on a successful create ack: START_LOGGING is sent from the dispatcher, then block.added = True
 SendStart ==
-    /\ pendstart /\ link = "up" /\ MayTx("disp")
-    /\ slock' = "free"
+    /\ pendstart /\ link = "up"
     /\ pendstart' = FALSE /\ ladded' = TRUE
     /\ DevCtl("start", bid, Period)
     /\ Emit([E0 EXCEPT !.e = "ctl", !.cmd = "start", !.id = bid,
                        !.per = (IF Bug = "period" THEN Period * 10 ELSE Period)])
-    /\ UNCHANGED <<lccf, rate, haskalman, script, pc, op, excbody, rres, si, bid, vals, window, syncq, pq, pinfl, t1, now,
+    /\ UNCHANGED <<scb, discpend, lccf, rate, haskalman, script, pc, op, excbody, rres, si, bid, vals, window, syncq, pq, pinfl, t1, now,
                    link, ndata>>
 
 RConv(v) == CASE Bug = "limit" -> IF v > 8000 THEN -1 ELSE v
@@ -269,11 +259,10 @@ DispData ==
            nv == IF Mode = "ranger" /\ mine THEN [j \in 1..6 |-> RConv(d.vals[j])] ELSE vals
        IN /\ inq' = Tail(inq)
           /\ vals' = nv
-          /\ syncq' = IF Mode = "estimator" /\ mine /\ pc \in {"loop", "stop", "delete"}
-                      THEN Append(syncq, d.vals) ELSE syncq
+          /\ syncq' = IF Mode = "estimator" /\ mine /\ scb THEN Append(syncq, d.vals) ELSE syncq
           /\ Emit([E0 EXCEPT !.e = "data", !.id = d.id, !.vals = d.vals,
                              !.read = (IF Mode = "ranger" THEN nv ELSE <<>>)])
-    /\ UNCHANGED <<slock, lccf, rate, haskalman, script, pc, op, excbody, rres, si, bid, ladded, pendstart, window, pq, pinfl, t1,
+    /\ UNCHANGED <<scb, discpend, lccf, rate, haskalman, script, pc, op, excbody, rres, si, bid, ladded, pendstart, window, pq, pinfl, t1,
                    now, dblk, link, ndata>>
 
 \* ---- environment --------------------------------------------------------------------------
@@ -282,7 +271,7 @@ EmitData(v) ==
     /\ ndata' = ndata + 1
     /\ inq' = Append(inq, [t |-> "data", cmd |-> "", id |-> dblk.id, st |-> 0, vals |-> v])
     /\ Emit([E0 EXCEPT !.e = "emit", !.id = dblk.id, !.vals = v])
-    /\ UNCHANGED <<slock, lccf, rate, haskalman, script, pc, op, excbody, rres, si, bid, ladded, pendstart, vals, window, syncq,
+    /\ UNCHANGED <<scb, discpend, lccf, rate, haskalman, script, pc, op, excbody, rres, si, bid, ladded, pendstart, vals, window, syncq,
                    pq, pinfl, t1, now, dblk, link>>
 
 \* link error: link closed, cf.link = None, disconnected callbacks (SyncLogger: DISCONNECT_EVENT when its
@@ -290,17 +279,27 @@ EmitData(v) ==
 LinkDrop ==
     /\ LinkLoss /\ link = "up" /\ pc # "setup"
     /\ link' = "down" /\ pq' = <<>> /\ pinfl' = FALSE
-    /\ syncq' = IF Mode = "estimator" /\ pc \in {"send", "loop", "stop", "delete"} THEN Append(syncq, DISC) ELSE syncq
+    /\ discpend' = scb /\ scb' = scb /\ syncq' = syncq
     /\ pendstart' = FALSE /\ ladded' = (ladded \/ pendstart)      \* a START under way is lost with the link
-    /\ slock' = "free"
     /\ Emit([E0 EXCEPT !.e = "down"])
     /\ UNCHANGED <<lccf, rate, haskalman, script, pc, op, excbody, rres, si, bid, vals, window, t1, now,
                    dblk, inq, ndata>>
 
+\* SyncLogger._disconnected (one of the last disconnected callbacks): disconnect() -- the link is gone, so
+\* nothing is sent; the callbacks are removed if connect() had finished -- and DISCONNECT_EVENT is queued
+SyncDisc ==
+    /\ discpend
+    /\ discpend' = FALSE
+    /\ scb' = (scb /\ pc = "send")       \* connect() not through yet: _is_connected is False, nothing is removed
+    /\ syncq' = Append(syncq, DISC)
+    /\ Emit([E0 EXCEPT !.e = "disc"])
+    /\ UNCHANGED <<lccf, rate, haskalman, script, pc, op, excbody, rres, si, bid, ladded, pendstart, vals, window, pq,
+                   pinfl, t1, now, dblk, inq, link, ndata>>
+
 \* ---- next-state relation ------------------------------------------------------------------
 UserNoTime == Begin \/ SendCreate \/ SendDelete \/ SendStop \/ UTake \/ End
 User   == PCall(1, now) \/ PCall(0, now) \/ (\E dt \in Times : SleepWake(dt)) \/ UserNoTime
-Lib    == PTx \/ DispP \/ DispAck \/ SendStart \/ DispData
+Lib    == PTx \/ DispP \/ DispAck \/ SendStart \/ DispData \/ SyncDisc
 System == User \/ Lib
 Env    == (\E v \in Vectors : EmitData(v)) \/ LinkDrop
 NextNoConfig == System \/ Env
